@@ -57,7 +57,7 @@ def generated_corpus4():
 
 def generated_corpus5():
     seen, out = set(), []
-    for (src, fam) in progen.corpus5() + progen.corpus6():
+    for (src, fam) in progen.corpus5() + progen.corpus6() + progen.corpus7():
         if src not in seen:
             seen.add(src)
             out.append((oracles.sha(src), src, fam))
@@ -99,7 +99,7 @@ def pick(items, ctx, quick_n):
 
 
 def targeted():
-    """the family-targeted corpora (12 + 2 + 6 + 6 + 3 families, and the module-level twins): run in full in both tiers, so that no family depends on the slice"""
+    """the family-targeted corpora (12 + 2 + 6 + 6 + 3 + 5 families, and the module-level twins): run in full in both tiers, so that no family depends on the slice"""
     return generated_corpus2() + generated_corpus3() + generated_corpus4() + generated_corpus5() + twin_corpus()
 
 
@@ -122,7 +122,7 @@ def key(sha, opts, extra=""):
 def behaviour_cases(ctx, quick_n):
     gen = generated_corpus()
     ex = example_corpus()
-    items = pick(gen, ctx, quick_n) + targeted() + pick(ex, ctx, quick_n // 3)
+    items = pick(gen, ctx, quick_n) + targeted() + pick(ex, ctx, quick_n // 3) + pick(observed_examples(), ctx, quick_n)
     cases = []
     r = ctx.rng("opts")
     tsha = {t[0] for t in targeted()}
@@ -209,7 +209,7 @@ def rules_suite(ctx, quick_n=120):
     s = Suite("C02-rule-sweep", kind="oracle")
     base = baseline("C02")
     rules = rule_names()
-    items = pick(generated_corpus(), ctx, quick_n) + targeted() + pick(example_corpus(), ctx, quick_n // 2)
+    items = pick(generated_corpus(), ctx, quick_n) + targeted() + pick(example_corpus(), ctx, quick_n // 2) + observed_examples()
     results = oracles.pmap(task_rules, [(src, rules, fam == "repo-example") for (_sha, src, fam) in items])
     fired = {}
     for (sha, src, fam), res in zip(items, results):
@@ -386,3 +386,91 @@ def match_known_sha(d, known):
                 "rule" not in k["witness"] or k["witness"]["rule"] == d.get("rule")):
             return k
     return None
+
+
+# ------------------------------------------------------------------------------------------------ observed examples
+
+# what a value "is" for the comparison: iterators and views by their elements, mappings by their items, callables by kind
+SHOW = '''def _show(v, _d=0):
+    t = type(v).__name__
+    if _d > 3:
+        return t
+    if callable(v) and not isinstance(v, type):
+        return "<callable>"
+    if hasattr(v, "__next__") or t in ("dict_keys", "dict_values", "dict_items", "range", "map", "filter", "zip", "reversed", "chain"):
+        try:
+            return ["iter"] + [_show(x, _d + 1) for _, x in zip(range(50), v)]
+        except Exception as e:
+            return "iter!" + type(e).__name__
+    if isinstance(v, dict):
+        return {"dict": [(_show(k, _d + 1), _show(x, _d + 1)) for k, x in v.items()]}
+    if isinstance(v, (list, tuple)):
+        return [t] + [_show(x, _d + 1) for x in v]
+    if isinstance(v, (set, frozenset)):
+        return [t] + sorted(repr(_show(x, _d + 1)) for x in v)
+    return repr(v)
+
+
+'''
+
+
+def observe_transform(src):
+    """make the values a snippet computes observable: every top-level expression statement becomes print(repr(...)), and the names
+    assigned at the top level are printed at the end.  Returns None when the snippet does not lend itself to it."""
+    import ast
+
+    try:
+        tree = ast.parse(src)
+    except (SyntaxError, ValueError):
+        return None
+    if not tree.body:
+        return None
+    lines = src.splitlines()
+    edits = []  # (lineno0, end_lineno0, col, end_col)
+    names = []
+    for i, st in enumerate(tree.body):
+        if isinstance(st, ast.Expr):
+            v = st.value
+            if isinstance(v, ast.Constant) and isinstance(v.value, str) and i == 0:
+                continue
+            if isinstance(v, (ast.Yield, ast.YieldFrom, ast.Await)) or (isinstance(v, ast.Call) and isinstance(v.func, ast.Name) and v.func.id == "print"):
+                continue
+            edits.append((st.lineno - 1, st.end_lineno - 1, st.col_offset, st.end_col_offset))
+        elif isinstance(st, ast.Assign) and len(st.targets) == 1 and isinstance(st.targets[0], ast.Name):
+            if st.targets[0].id not in names:
+                names.append(st.targets[0].id)
+    if not edits and not names:
+        return None
+    if any(not l.isascii() for l in lines):
+        return None  # byte columns
+    for (l0, l1, c0, c1) in sorted(edits, reverse=True):
+        lines[l1] = lines[l1][:c1] + "))" + lines[l1][c1:]
+        lines[l0] = lines[l0][:c0] + "print(_show(" + lines[l0][c0:]
+    out = "\n".join(lines) + "\n"
+    for n in names[:6]:
+        out += f"try:\n    print({n!r}, _show({n}))\nexcept NameError:\n    pass\n"
+    out = SHOW + out
+    try:
+        ast.parse(out)
+    except SyntaxError:
+        return None
+    return out
+
+
+_OBSERVED = None
+
+
+def observed_examples():
+    """the repository's example snippets with their values made observable (stub world)"""
+    global _OBSERVED
+    if _OBSERVED is None:
+        out, seen = [], set()
+        for s in oracles.repo_examples():
+            if not oracles.runnable(s):
+                continue
+            t = observe_transform(s)
+            if t and t not in seen and len(t) < 4000:
+                seen.add(t)
+                out.append((oracles.sha(t), t, "repo-example"))
+        _OBSERVED = out
+    return _OBSERVED
